@@ -42,6 +42,8 @@ EXPECTED_NOT_UNDERSTOOD = {
 # behaviour-preserving refactorings (confirmed: identical observable output, baseline passes) that the checker cannot follow.  Required: exit 0 or 2, never 1.
 REFACTOR_NOT_UNDERSTOOD = {
     "sa/selftest/never_alarm/C16/refactor_D.diff": "the three accumulator dicts replaced by one dict of dataclass objects filled from a generator function: generators are not interpreted and the result builder has another signature",
+    "sa/selftest/never_alarm/C05/refactor_G.diff": "busy time summed per running bit mask first, each mask named once, the per-mask totals regrouped by name: equality with the per-row labelling needs the regrouping law "
+                                                    "sum over g(k) of (sum by k) = sum by g(k) together with a name map built from the index of an intermediate result",
 }
 
 
